@@ -39,6 +39,7 @@
 #endif	/* HAVE_CONFIG_H */
 #include <unistd.h>
 #include <stdlib.h>
+#include <limits.h>
 #include <stdint.h>
 #include <stddef.h>
 #include <stdbool.h>
@@ -495,7 +496,7 @@ snarf_rrule(const char *s, size_t z)
 
 		case KEY_COUNT:
 		case KEY_INTER:
-			if (!(tmp = atol(++kv))) {
+			if ((tmp = atol(++kv)) <= 0 || tmp > INT_MAX) {
 				goto bogus;
 			}
 			switch (c->key) {
